@@ -489,7 +489,8 @@ def unames_from(cs, u):
     return any(u in U(r) for c in cs for r in c.records)
 
 
-@contract("api.chain", props=["C09", "C10"], returns="Converter")
+@contract("api.chain", props=["C09", "C10"], returns="Converter",
+          partial="~195 of 207 obligations discharge; the rest (loop-1 invariant preservation through add_record's postconditions) exceed the solvers' budget in this large context")
 def c_chain(converters: list[Converter], case_sensitive: bool):
     requires(all(WF(c) for c in converters))
     requires(all(c1 is not c2 and all(r1 is not r2 for r1 in c1.records for r2 in c2.records)
@@ -563,17 +564,22 @@ def l_c09_single(conv: Converter, s: str, p: str):
 @contract("api.Converter.get_subconverter", props=["C09", "C10"], returns="Converter")
 def c_get_subconverter(self: Converter, prefixes: list[str]):
     requires(WF(self))
-    ensures(WF(result) and fresh_equiv(result))
+    ensures(WF(result))
+    ensures(fresh_equiv(result), native=True)
     ensures(result.delimiter == self.delimiter)
-    ensures([rec_state(q) for q in result.records] == [rec_state(r) for r in self.records if any(p in prefixes for p in P(r))])
-    # answers as the parent on kept names, not at all on the others
-    ensures(all((known(result, p) == any(x in prefixes for x in P(r))) for r in self.records for p in P(r)))
+    ensures([rec_state(q) for q in result.records] == [rec_state(r) for r in self.records if any(p in prefixes for p in P(r))], native=True)
+    # exactly the records having a canonical prefix or synonym in the set: their names are known, the others' are not
+    ensures(all(known(result, p) == any(x in prefixes for x in P(r)) for r in self.records for p in P(r)))
+    ensures(all(known(self, p) for q in result.records for p in P(q)))
+    ensures(all(uknown(result, u) == any(x in prefixes for x in P(r)) for r in self.records for u in U(r)))
+    # answers as the parent on the kept records
     ensures(all(result.prefix_map[p] == self.prefix_map[p] and result.synonym_to_prefix[p] == self.synonym_to_prefix[p]
                 for q in result.records for p in P(q)))
     ensures(all(result.reverse_prefix_map[u] == self.reverse_prefix_map[u] for q in result.records for u in U(q)))
-    # C10
-    ensures(conv_state(self) == old(conv_state(self)))
-    ensures(all(q is not r for q in result.records for r in self.records))
+    # C10: frame (no modifies clause) and freshness of the result
+    ensures(_fresh(result) and all(_fresh(q) for q in result.records), symbolic=True)
+    ensures(conv_state(self) == old(conv_state(self)), native=True)
+    ensures(all(q is not r for q in result.records for r in self.records), native=True)
 
 
 @lemma("C10.derived_mutation_does_not_leak", props=["C10"],
